@@ -32,7 +32,7 @@ RunInMC(i, p) ==
       fs2 == flush(p.fs, flushNow, 1)
   IN [res |-> [out |-> r.out, file |-> fs2[i]],
       proc |-> [ff |-> IF Dev.cacheFF THEN (c.ff :> [L |-> L, bx |-> r.bx]) @@ p.ff ELSE p.ff, fs |-> fs2, queue |-> q2]]
-FreshTab == [i \in 1..Len(HInputs) |-> FreshRes(i)]
+FreshTab == TLCEval([i \in 1..Len(HInputs) |-> FreshRes(i)])
 FreshOf(i) == FreshTab[i]
 NIn == Len(HInputs)
 
